@@ -25,7 +25,7 @@ PIPELINE = {"name": "p", "priority": 10, "transformations": [{"id": "ac", "type"
 
 
 def rule_doc(name, rid, title, det, logsource=None):
-    d = {"title": title, "name": name, "status": "test", "level": "low", "logsource": logsource or {"category": "c"}, "detection": det, "references": ["http://x", "http://x"], "tags": ["attack.t1000", "attack.t1000"]}
+    d = {"title": title, "name": name, "status": "test", "level": "low", "logsource": logsource or {"category": "c"}, "detection": det, "references": ["http://x", "http://x"], "tags": ["attack.t1000", "attack.execution", "attack.t1000"]}          # (a duplicate, and not in alphabetical order)
     if rid:
         d["id"] = rid
     return d
